@@ -136,7 +136,9 @@ func (s *c02Sys) Key() string {
 	if s.w.Cfg.AutoBucket {
 		probe = nil // probing an unlisted bucket would auto-create it
 	}
-	return drv.KeyOf(s.w.Snapshot(drv.SnapOpts{Buckets: probe}))
+	// the memory backend can hold residue (delete markers, archived versions) that only
+	// ListObjectVersions shows: it is part of the state key
+	return drv.KeyOf(s.w.Snapshot(drv.SnapOpts{Buckets: probe, Versions: s.w.Cfg.Kind == drv.Mem}))
 }
 
 func multiDeleteBody(keys []string, quiet bool) []byte {
